@@ -27,6 +27,8 @@ type access struct {
 
 type table struct {
 	Accesses []access `json:"accesses"`
+	// writes that can reach memory already published to lock-free readers (must be empty: C18_published_immutable)
+	PostPublicationWrites []string `json:"postPublicationWrites"`
 }
 
 type Area struct{}
@@ -69,6 +71,9 @@ func key(a access) string {
 
 func (Area) Gen(r *rand.Rand, tier string, emit func(string)) {
 	t := load()
+	for _, w := range t.PostPublicationWrites {
+		emit("ppw " + strings.ReplaceAll(w, " ", "_"))
+	}
 	for i, a := range t.Accesses {
 		for j, b := range t.Accesses {
 			if j < i || a.Field != b.Field || !(a.Write || b.Write) {
@@ -81,6 +86,14 @@ func (Area) Gen(r *rand.Rand, tier string, emit func(string)) {
 
 func (Area) Exec(input string) string {
 	f := strings.Fields(input)
+	if len(f) == 2 && f[0] == "ppw" {
+		for _, w := range load().PostPublicationWrites {
+			if strings.ReplaceAll(w, " ", "_") == f[1] {
+				return "present"
+			}
+		}
+		return "absent"
+	}
 	if len(f) != 18 || f[0] != "pair" {
 		return "BADOP"
 	}
